@@ -133,6 +133,9 @@ func ListDiamonds(repo string, stores context2.Stores, opts ...Option) (model.Di
 
 	workers.Wait()
 
+	// batches follow the key scan (diamond IDs): order the whole result by start time, as documented
+	sort.Stable(diamonds)
+
 	return diamonds, err // we may have some batches resolved before the error occurred
 }
 
